@@ -517,11 +517,11 @@ def run_inner(ctx):
             hist("ipc", pat, 3, 5, 16)
             hist("local", pat, 3, 5, 8)
         else:
-            hist("ipc", pat, 1, 5, 1)
-            hist("ipc", pat, 2, 4, 1)
+            hist("ipc", pat, 1, 4, 1)
+            hist("ipc", pat, 2, 3, 1)
             hist("local", pat, 3, 4 if pat in ("ps", "ev") else 3, 2)
     if not th:
-        hist("ipc", "ps", 3, 4, 4)
+        hist("ipc", "ps", 3, 3, 2)
     r = vlib.run_pipelines(jobs, DRIVER, timeout=2400)
     cleanup()
     os.makedirs(BASE, exist_ok=True)
@@ -538,7 +538,7 @@ def run_inner(ctx):
                 "creator with 1/1 (error priority), all payload/key type x type pairs (name, size, alignment 8/16, slice) also combined with a failing field, "
                 "attribute define x require x require_key sets, creation-time validity (safe_overflow x buffer x history; blackboard without entries), and "
                 "seeded random full settings; each with the library defaults and with all numeric defaults = 1. distinct = distinct (pattern, defaults, history)" %
-                ("length 5 with 1..3 nodes (ipc and local)" if th else "length 5 with 1 node, length 4-5 with 2 nodes, length 4 with 3 nodes (ipc), length 3-4 with 3 nodes (local)"),
+                ("length 5 with 1..3 nodes (ipc and local)" if th else "length 4 with 1 node, length 3 with 2-3 nodes (ipc), length 3-4 with 3 nodes (local); the thorough tier runs length 5 with 1..3 nodes"),
         "exhaustive": False,
     })
     samples = []
